@@ -1541,11 +1541,137 @@ def workload_c(chk, exe_plain, exe_asan, tier, scale, cov):
 # Workload B
 # ---------------------------------------------------------------------------------------------
 
+GEN_INTS = ["i8", "u8", "i16", "u16", "i32", "u32", "i64", "u64"]
+GEN_VECS = {16: ["f32x4", "i32x4", "f64x2"], 32: ["f32x8", "i32x8"], 64: ["f32x16"]}
+CALLEE_DIR = os.path.join(common.VERIF, ".cache", "c06-callees")
+
+
+def gen_interop_signatures(seed, n, vec_sizes):
+    """(ret, [args]) for the generated part of workload B: <= 12 arguments mixing ints, f32/f64 and vectors of different sizes"""
+    rng = common.Rng(seed).fork("c06-interop")
+    out = []
+    rets = ["void", "i32", "i64", "u8", "i16", "f32", "f64", "f32x4", "i32x4"]
+
+    def vec(size):
+        return rng.choice(GEN_VECS[size])
+
+    def scalar():
+        return rng.choice(GEN_INTS + GEN_INTS + ["f32", "f64", "f32", "f64"])
+
+    for i in range(n):
+        shape = i % 6
+        args = []
+        if shape in (0, 1):
+            # several by-value/by-reference vectors of decreasing (0) or increasing (1) size first, then enough scalars to reach the stack
+            k = rng.range(2, min(4, len(vec_sizes) + 1))
+            sizes = sorted([rng.choice(vec_sizes) for _ in range(k)], reverse=(shape == 0))
+            if len(set(sizes)) == 1 and len(vec_sizes) > 1:
+                sizes[-1 if shape == 0 else 0] = vec_sizes[0]
+                sizes[0 if shape == 0 else -1] = vec_sizes[-1]
+            args = [vec(sz) for sz in sizes]
+            args += [rng.choice(GEN_INTS) for _ in range(rng.range(1, 12 - len(args)))]
+        elif shape == 2:
+            # vectors interleaved with scalars
+            for _ in range(rng.range(3, 12)):
+                args.append(vec(rng.choice(vec_sizes)) if rng.chance(2, 5) else scalar())
+        elif shape == 3:
+            # many integers (stack spill) with a few vectors at the end
+            args = [rng.choice(GEN_INTS) for _ in range(rng.range(5, 9))]
+            args += [vec(rng.choice(vec_sizes)) for _ in range(rng.range(1, 12 - len(args)))]
+        elif shape == 4:
+            # float/double heavy, more than eight of them
+            args = [rng.choice(["f32", "f64"]) for _ in range(rng.range(6, 11))]
+            while len(args) < 12 and rng.chance(1, 2):
+                args.insert(rng.below(len(args) + 1), scalar())
+        else:
+            for _ in range(rng.range(1, 12)):
+                r = rng.below(10)
+                args.append(vec(rng.choice(vec_sizes)) if r < 3 else scalar())
+        out.append((rng.choice(rets), args[:12]))
+    return out
+
+
+def callee_source(sigs):
+    """C source of one shared object: for every signature a SysV and an ms_abi callee that record what they received, and C callers"""
+    L = [ap.c_typedefs("gcc"),
+         "typedef unsigned int u32_; typedef unsigned char u8_;",
+         "struct RecBuf { u32_ n; u32_ size[32]; u8_ data[32][64] __attribute__((aligned(64))); };",
+         "static struct RecBuf* cal; static u8_ (*in)[64]; static u8_* retval; static u8_* retout;",
+         "void c06_gen_bind(void* a, void* b, void* c, void* d) { cal = a; in = b; retval = c; retout = d; }",
+         "#define REC(T, v) do { if (cal->n < 32) { __builtin_memcpy(cal->data[cal->n], &v, sizeof(T)); cal->size[cal->n] = sizeof(T); } cal->n++; } while (0)",
+         "#define LD(T, p) ({ T t_; __builtin_memcpy(&t_, (p), sizeof(T)); t_; })"]
+    table = []
+    for i, (ret, args) in enumerate(sigs):
+        rt = "void" if ret == "void" else ap.c_type(ret)
+        params = ", ".join("%s a%d" % (ap.c_type(t), k) for k, t in enumerate(args)) or "void"
+        body = "cal->n = 0; " + " ".join("REC(%s, a%d);" % (ap.c_type(t), k) for k, t in enumerate(args))
+        if ret != "void":
+            body += " return LD(%s, retval);" % rt
+        ptypes = ", ".join(ap.c_type(t) for t in args) or "void"
+        call_args = ", ".join("LD(%s, in[%d])" % (ap.c_type(t), k) for k, t in enumerate(args))
+        for tag, attr in (("s", "sysv_abi"), ("m", "ms_abi")):
+            L.append("__attribute__((%s, noinline)) %s %s%d(%s) { %s }" % (attr, rt, tag, i, params, body))
+            call = "((%s (__attribute__((%s)) *)(%s))fn)(%s)" % (rt, attr, ptypes, call_args)
+            if ret == "void":
+                L.append("void c%s%d(void* fn) { %s; }" % (tag, i, call))
+            else:
+                L.append("void c%s%d(void* fn) { %s r_ = %s; __builtin_memcpy(retout, &r_, sizeof r_); }" % (tag, i, rt, call))
+        names = ", ".join('"%s"' % t for t in args) or "0"
+        table.append('  { "%s", { %s }, %d, { (void*)s%d, (void*)m%d }, { cs%d, cm%d } }' % (ret, names, len(args), i, i, i, i))
+    L.append("struct GenEntry { const char* ret; const char* args[16]; int nargs; void* callee[2]; void (*caller[2])(void*); };")
+    L.append("struct GenEntry c06_gen_table[] = {\n%s\n};" % ",\n".join(table))
+    L.append("int c06_gen_count = %d;" % len(sigs))
+    return "\n".join(L) + "\n"
+
+
+def build_callee_lib(sigs, flags):
+    """-> path of the shared object (cached by content)"""
+    import hashlib
+    src = callee_source(sigs)
+    cmd = ["gcc", "-O1", "-shared", "-fPIC", "-w", "-fno-stack-protector"] + list(flags)
+    h = hashlib.sha1((" ".join(cmd) + "\n" + src).encode()).hexdigest()[:20]
+    os.makedirs(CALLEE_DIR, exist_ok=True)
+    so = os.path.join(CALLEE_DIR, h + ".so")
+    if os.path.exists(so):
+        os.utime(so)
+        return so, False
+    with tempfile.TemporaryDirectory(dir=CALLEE_DIR) as td:
+        c = os.path.join(td, "g.c")
+        with open(c, "w") as fh:
+            fh.write(src)
+        tmp = os.path.join(td, "g.so")
+        p = subprocess.run(cmd + [c, "-o", tmp], stdout=subprocess.PIPE, stderr=subprocess.PIPE, text=True)
+        if p.returncode != 0:
+            raise common.HarnessError("callee library failed to compile: " + p.stderr[-600:])
+        os.replace(tmp, so)
+    # keep the directory small
+    ents = sorted((os.path.join(CALLEE_DIR, f) for f in os.listdir(CALLEE_DIR) if f.endswith(".so")), key=os.path.getmtime, reverse=True)
+    for f in ents[200:]:
+        try:
+            os.unlink(f)
+        except OSError:
+            pass
+    return so, True
+
+
 def workload_b(chk, exe_plain, exe_asan, tier, scale, cov):
-    reps = 3 if tier == "quick" else 40
+    reps = 3 if tier == "quick" else 20
     light = int((150 if tier == "quick" else 4000) * scale)
+    flags = cpu_flags()
+    vec_sizes = [16] + ([32] if flags else []) + ([64] if "-mavx512f" in flags else [])
+    ngen = max(6, int((240 if tier == "quick" else 6000) * scale))
+    per_lib = 60 if tier == "quick" else 250
+    gsigs = gen_interop_signatures(chk.seed, ngen, vec_sizes)
+    chunks = [gsigs[i:i + per_lib] for i in range(0, len(gsigs), per_lib)]
+    libs = common.parallel_map(lambda ch: build_callee_lib(ch, flags), chunks)
+    compiled = sum(1 for _, fresh in libs if fresh)
     jobs = [(exe_plain, ["--mode", "interop", "--seed", str(chk.seed), "--reps", str(reps), "--light", str(max(light, 1))], "plain"),
             (exe_asan, ["--mode", "interop", "--seed", str(chk.seed + 1), "--reps", "1", "--light", str(max(light // 3, 1))], "asan")]
+    for n, (so, _) in enumerate(libs):
+        jobs.append((exe_plain, ["--mode", "interop", "--seed", str(chk.seed + 100 + n), "--reps", "2", "--light", "0", "--fixed", "0", "--callees", so], "plain"))
+    # one generated library also under ASan+UBSan (Compiler invoke lowering with sanitizers on)
+    if libs:
+        jobs.append((exe_asan, ["--mode", "interop", "--seed", str(chk.seed + 99), "--reps", "1", "--light", "0", "--fixed", "0", "--callees", libs[0][0]], "asan"))
 
     def one(job):
         exe, argv, tag = job
@@ -1554,21 +1680,36 @@ def workload_b(chk, exe_plain, exe_asan, tier, scale, cov):
 
     calls = 0
     info = {}
+    gen = {"signatures": 0, "calls": 0, "built": 0, "rejected": 0, "rejects": {}, "samples": []}
     for job, rc, out, err in common.parallel_map(one, jobs):
         exe, argv, tag = job
         rep = common.sanitizer_report(err)
+        case = {"part": "interop", "flavour": tag, "argv": argv}
+        if "--callees" in argv:
+            k = int(argv[argv.index("--seed") + 1]) - chk.seed - 100
+            src_sigs = chunks[k] if 0 <= k < len(chunks) else chunks[0]
+            case["callee_sigs"] = [[r, a] for r, a in src_sigs]
         if rep:
             chk.violation(san_key("interop", rep),
-                          "sanitizer report during `%s`: %s %s" % (" ".join(argv), rep["kind"], rep["frames"][:5]), {"part": "interop", "flavour": tag, "argv": argv})
+                          "sanitizer report during `%s`: %s %s" % (" ".join(argv), rep["kind"], rep["frames"][:5]), case)
             continue
         try:
             res = json.loads(out.decode().strip().splitlines()[-1])
         except Exception:
             raise common.HarnessError("drv_func %s rc=%s produced no summary: %s" % (argv, rc, err[-400:]))
         for v in res["violations"]:
-            chk.violation(v["key"], v["what"], {"part": "interop", "flavour": tag, "argv": argv})
+            chk.violation(v["key"], v["what"], case)
         calls += res["calls"]
-        if tag == "plain":
+        if "--callees" in argv:
+            if tag == "plain":
+                gen["signatures"] += res["signatures"]
+                gen["calls"] += res["calls"]
+                gen["built"] += res["built"]
+                gen["rejected"] += res["rejected"]
+                for k2, v2 in res["rejects"].items():
+                    gen["rejects"][k2] = gen["rejects"].get(k2, 0) + v2
+                gen["samples"] += res["samples"][:2]
+        elif tag == "plain":
             info = res
     cov.update({
         "native_calls_made": calls,
@@ -1577,6 +1718,14 @@ def workload_b(chk, exe_plain, exe_asan, tier, scale, cov):
         "interop_functions_built": info.get("built", 0),
         "interop_rejected_by_asmjit": info.get("rejects", {}),
         "interop_rejected_samples": info.get("samples", [])[:6],
+        "interop_generated_signatures": gen["signatures"],
+        "interop_generated_native_calls": gen["calls"],
+        "interop_generated_functions_built": gen["built"],
+        "interop_generated_rejected_by_asmjit": gen["rejects"],
+        "interop_generated_rejected_samples": gen["samples"][:6],
+        "interop_generated_samples": ["%s(%s)" % (r, ",".join(a)) for r, a in gsigs[:4]],
+        "interop_callee_libraries": len(libs),
+        "interop_callee_libraries_compiled": compiled,
     })
     return calls
 
@@ -1642,6 +1791,9 @@ def replay(chk, rp, exe_asan, exe_plain):
                 chk.violation(key, what, case)
     else:
         exe = exe_asan if case.get("flavour") == "asan" else exe_plain
+        if "callee_sigs" in case and "--callees" in case["argv"]:
+            so, _ = build_callee_lib([(r, a) for r, a in case["callee_sigs"]], cpu_flags())
+            case["argv"][case["argv"].index("--callees") + 1] = so
         rc, out, err = common.run_child([exe] + case["argv"], timeout=1800)
         rep = common.sanitizer_report(err)
         if rep:
